@@ -26,8 +26,10 @@ import (
 	"errors"
 	"fmt"
 	"io"
+	"encoding/json"
 	"math/big"
 	"net"
+	"net/http"
 	"net/http/httptest"
 	"os"
 	"path/filepath"
@@ -78,7 +80,18 @@ type chain struct {
 	receipts  map[common.Hash]*types.Receipt
 	block     uint64
 	opsFault  string
+	hist      map[common.Address][]nonceAt // history of the account's next nonce, for the lagging "pending" view
+	sentBy    map[common.Address][]uint64  // nonces of the transactions each account submitted, in order
 }
+
+type nonceAt struct {
+	at time.Time
+	n  uint64
+}
+
+// how far the chain node's "pending" answer trails what it has accepted (a node whose pending
+// state refreshes at block boundaries)
+const pendingLag = 1200 * time.Millisecond
 
 type txRec struct {
 	rec
@@ -116,11 +129,22 @@ func (a *api) BlockNumber() hexutil.Uint64 {
 	a.c.block++
 	return hexutil.Uint64(a.c.block)
 }
-func (a *api) GetTransactionCount(addr common.Address, _ string) hexutil.Uint64 {
+func (a *api) GetTransactionCount(addr common.Address, tag string) hexutil.Uint64 {
 	a.c.mu.Lock()
 	defer a.c.mu.Unlock()
+	if tag == "pending" {
+		v := uint64(0)
+		for _, h := range a.c.hist[addr] {
+			if time.Since(h.at) >= pendingLag {
+				v = h.n
+			}
+		}
+		return hexutil.Uint64(v)
+	}
 	return hexutil.Uint64(a.c.nonces[addr])
 }
+
+func (a *api) GetTransactionByHash(common.Hash) (map[string]interface{}, error) { return nil, nil } // JSON null: unknown
 func (a *api) GasPrice() *hexutil.Big             { return (*hexutil.Big)(big.NewInt(2_000_000_000)) }
 func (a *api) MaxPriorityFeePerGas() *hexutil.Big { return (*hexutil.Big)(big.NewInt(1_000_000_000)) }
 func (a *api) EstimateGas(map[string]interface{}) hexutil.Uint64 { return 100000 }
@@ -197,6 +221,8 @@ func (a *api) SendRawTransaction(raw hexutil.Bytes) (common.Hash, error) {
 	a.c.txs = append(a.c.txs, r)
 	// mined at once, successfully; the registries credit the value
 	a.c.nonces[from] = tx.Nonce() + 1
+	a.c.hist[from] = append(a.c.hist[from], nonceAt{time.Now(), tx.Nonce() + 1})
+	a.c.sentBy[from] = append(a.c.sentBy[from], tx.Nonce())
 	a.c.block++
 	st := uint64(1)
 	if isOp && a.c.opsFault == "revert" {
@@ -258,6 +284,8 @@ type in struct {
 	OpsFault string `json:"ops_fault,omitempty"`
 	Engine   string `json:"engine,omitempty"`    // "" accept | reject: what the provider's decision engine answers
 	BidShape string `json:"bid_shape,omitempty"` // "" valid | bad-hash | zero-amount | no-hash: the request given to the bidder node's API
+	// "" a bidder node and a provider node | bootnode: a bootnode and a provider that dials it
+	Scene string `json:"scene,omitempty"`
 }
 
 type obs struct {
@@ -279,7 +307,15 @@ type obs struct {
 	PrepayTxAt     string   `json:"prepay_tx_at"` // ops: same for PrepayAllowance
 	StakeReported  string   `json:"stake_reported"`
 	PrepayReported string   `json:"prepay_reported"`
-	Err            string   `json:"err,omitempty"`
+	// ops: the provider account's transactions carry strictly increasing nonces although the chain
+	// node's pending answer lags (one nonce allocator per account)
+	ProviderNoncesOK bool `json:"provider_nonces_ok"`
+	// ops: cancelling a transaction the chain node does not know is refused with an error
+	CancelUnknown string `json:"cancel_unknown_reported"`
+	// bootnode scene: did the bootnode admit / block the provider that dialled it
+	BootAdmitted bool   `json:"boot_admitted_provider"`
+	BootBlocked  bool   `json:"boot_blocked_provider"`
+	Err          string `json:"err,omitempty"`
 }
 
 var (
@@ -357,7 +393,8 @@ func run(sc in, rng *vh.Rng, cert, keyf string) (o obs) {
 	pc, pr, br := common.BytesToAddress(rng.Bytes(20)), common.BytesToAddress(rng.Bytes(20)), common.BytesToAddress(rng.Bytes(20))
 	c := &chain{chainID: big.NewInt(31337), names: map[common.Address]string{pc: "preconf", pr: "provider-registry", br: "bidder-registry"},
 		abis: map[string]abi.ABI{}, stake: map[common.Address]*big.Int{}, allowance: map[common.Address]*big.Int{},
-		nonces: map[common.Address]uint64{}, receipts: map[common.Hash]*types.Receipt{}}
+		nonces: map[common.Address]uint64{}, receipts: map[common.Hash]*types.Receipt{}, hist: map[common.Address][]nonceAt{},
+		sentBy: map[common.Address][]uint64{}}
 	for name, js := range map[string]string{"preconf": preconf.PreconfcommitmentstoreMetaData.ABI, "provider-registry": providerregistry.ProviderregistryMetaData.ABI,
 		"bidder-registry": bidderregistry.BidderregistryMetaData.ABI} {
 		a, err := abi.JSON(strings.NewReader(js))
@@ -577,6 +614,11 @@ func run(sc in, rng *vh.Rng, cert, keyf string) (o obs) {
 		} else {
 			o.PrepayReported = "error"
 		}
+		if _, err := engine.CancelTransaction(octx, &providerapiv1.CancelReq{TxHash: "0x" + hex.EncodeToString(rng.Bytes(32))}); err != nil {
+			o.CancelUnknown = "error"
+		} else {
+			o.CancelUnknown = "success"
+		}
 		ocancel()
 		c.mu.Lock()
 		later := append([]txRec{}, c.txs[nBefore:]...)
@@ -593,8 +635,116 @@ func run(sc in, rng *vh.Rng, cert, keyf string) (o obs) {
 			}
 		}
 	}
+	o.ProviderNoncesOK = true
+	c.mu.Lock()
+	ns := c.sentBy[pKS.GetAddress()]
+	c.mu.Unlock()
+	for i := 1; i < len(ns); i++ {
+		if ns[i] <= ns[i-1] {
+			o.ProviderNoncesOK = false
+		}
+	}
 	emu.Lock()
 	defer emu.Unlock()
+	return o
+}
+
+// runBoot: a bootnode built by NewNode and a provider node that dials it.  The bootnode must ask
+// the configured provider registry about the provider's stake and admit it only if staked.
+func runBoot(sc in, rng *vh.Rng, cert, keyf string) (o obs) {
+	o = obs{StakeReadsAt: []string{}, AllowReadsAt: []string{}, OtherReads: []string{}, StakeReadBy: []string{}, AllowReadBy: []string{},
+		CommitTxsAt: []string{}, CommitTxFrom: []string{}, OtherTxs: []string{}}
+	defer func() {
+		if r := recover(); r != nil {
+			o.Err = fmt.Sprint("panic: ", r)
+		}
+	}()
+	pKS, bootKS := vh.NewKeySigner(rng), vh.NewKeySigner(rng)
+	pc, pr, br := common.BytesToAddress(rng.Bytes(20)), common.BytesToAddress(rng.Bytes(20)), common.BytesToAddress(rng.Bytes(20))
+	c := &chain{chainID: big.NewInt(31337), names: map[common.Address]string{pc: "preconf", pr: "provider-registry", br: "bidder-registry"},
+		abis: map[string]abi.ABI{}, stake: map[common.Address]*big.Int{}, allowance: map[common.Address]*big.Int{},
+		nonces: map[common.Address]uint64{}, receipts: map[common.Hash]*types.Receipt{}, hist: map[common.Address][]nonceAt{},
+		sentBy: map[common.Address][]uint64{}}
+	for name, js := range map[string]string{"preconf": preconf.PreconfcommitmentstoreMetaData.ABI, "provider-registry": providerregistry.ProviderregistryMetaData.ABI,
+		"bidder-registry": bidderregistry.BidderregistryMetaData.ABI} {
+		a, err := abi.JSON(strings.NewReader(js))
+		must(err)
+		c.abis[name] = a
+	}
+	if sc.Staked {
+		c.stake[pKS.GetAddress()] = big.NewInt(1000000)
+	}
+	bootEP, pEP := c.endpoint("bootnode-node"), c.endpoint("provider-node")
+	defer bootEP.Close()
+	defer pEP.Close()
+	mk := func(ks *vh.KeySigner, typ, ep string, boot []string) (*node.Options, int, int) {
+		p2pPort, rpcPort, httpPort := freePort(), freePort(), freePort()
+		return &node.Options{Version: "verif", KeySigner: ks, Secret: "verif", PeerType: typ, Logger: vh.Quiet(),
+			P2PPort: p2pPort, P2PAddr: "127.0.0.1", HTTPAddr: fmt.Sprintf("127.0.0.1:%d", httpPort), RPCAddr: fmt.Sprintf("127.0.0.1:%d", rpcPort),
+			Bootnodes: boot, PreconfContract: pc.Hex(), ProviderRegistryContract: pr.Hex(), BidderRegistryContract: br.Hex(),
+			RPCEndpoint: ep, TLSCertificateFile: cert, TLSPrivateKeyFile: keyf}, p2pPort, httpPort
+	}
+	bootOpts, bootP2P, bootHTTP := mk(bootKS, "bootnode", bootEP.URL, nil)
+	bootNode, err := node.NewNode(bootOpts)
+	if err != nil {
+		o.Err = "bootnode: " + err.Error()
+		return o
+	}
+	defer bootNode.Close()
+	if !waitListening(bootP2P) {
+		o.Err = "bootnode p2p port never opened"
+		return o
+	}
+	lk, err := libp2pcrypto.UnmarshalSecp256k1PrivateKey(crypto.FromECDSA(bootKS.Key))
+	must(err)
+	bootID, err := peer.IDFromPrivateKey(lk)
+	must(err)
+	pOpts, _, _ := mk(pKS, "provider", pEP.URL, []string{fmt.Sprintf("/ip4/127.0.0.1/tcp/%d/p2p/%s", bootP2P, bootID)})
+	pNode, err := node.NewNode(pOpts)
+	if err != nil {
+		o.Err = "provider node: " + err.Error()
+		return o
+	}
+	defer pNode.Close()
+	o.Started = true
+	time.Sleep(300 * time.Millisecond)
+	// the bootnode's own account of who it is connected to and whom it blocks
+	hc := &http.Client{Timeout: 3 * time.Second, Transport: &http.Transport{TLSClientConfig: &tls.Config{InsecureSkipVerify: true}}}
+	var topo struct {
+		ConnectedPeers map[string][]common.Address `json:"connected_peers"`
+		BlockedPeers   []json.RawMessage           `json:"blocked_peers"`
+	}
+	waitListening(bootHTTP)
+	resp, err := hc.Get(fmt.Sprintf("https://127.0.0.1:%d/topology", bootHTTP))
+	if err != nil {
+		o.Err = "bootnode debug api: " + err.Error()
+		return o
+	}
+	defer resp.Body.Close()
+	if err := json.NewDecoder(resp.Body).Decode(&topo); err != nil {
+		o.Err = "bootnode debug api: " + err.Error()
+		return o
+	}
+	for _, a := range topo.ConnectedPeers["providers"] {
+		if a == pKS.GetAddress() {
+			o.BootAdmitted = true
+		}
+	}
+	o.BootBlocked = len(topo.BlockedPeers) > 0
+	c.mu.Lock()
+	calls := append([]rec{}, c.calls...)
+	c.mu.Unlock()
+	var stakeAt, stakeBy, other []string
+	for _, r := range calls {
+		switch r.Method {
+		case "checkStake", "minStake":
+			stakeAt, stakeBy = append(stakeAt, r.To), append(stakeBy, r.Node)
+		default:
+			other = append(other, r.To+"."+r.Method)
+		}
+	}
+	o.StakeReadsAt, o.StakeReadBy, o.OtherReads = uniq(stakeAt), uniq(stakeBy), uniq(other)
+	o.CommitMatches, o.ProviderIsP, o.ProviderNoncesOK = true, true, true
 	return o
 }
 
@@ -614,6 +764,8 @@ func main() {
 		{Tag: "nodewire", Staked: true, Allowed: false},
 		{Tag: "nodewire", Staked: false, Allowed: true},
 		{Tag: "nodewire", Staked: true, Allowed: true, Engine: "reject"},
+		{Tag: "nodewire", Scene: "bootnode", Staked: false},
+		{Tag: "nodewire", Scene: "bootnode", Staked: true},
 		{Tag: "nodewire", Staked: true, Allowed: true, BidShape: "bad-hash"},
 		{Tag: "nodewire", Staked: true, Allowed: true, Ops: true, OpsFault: "revert"},
 		{Tag: "nodewire", Staked: true, Allowed: true, Ops: true, OpsFault: "reject"},
@@ -635,12 +787,16 @@ func main() {
 		wg.Add(1)
 		go func(i int) {
 			defer wg.Done()
-			res[i] = run(scs[i], rngs[i], cert, keyf)
+			runner := run
+			if scs[i].Scene == "bootnode" {
+				runner = runBoot
+			}
+			res[i] = runner(scs[i], rngs[i], cert, keyf)
 			// a node that could not even be brought up (a port taken by another process in the
 			// meantime, a slow machine): set the scenario up again before reporting anything
 			for try := 0; try < 3 && !res[i].Started; try++ {
 				time.Sleep(time.Duration(200*(try+1)) * time.Millisecond)
-				res[i] = run(scs[i], vh.NewRng(uint64(770+i+100*(try+1))), cert, keyf)
+				res[i] = runner(scs[i], vh.NewRng(uint64(770+i+100*(try+1))), cert, keyf)
 			}
 		}(i)
 	}
